@@ -8,10 +8,11 @@ cd $d || exit 9
 [ -f $r/patch.diff ] || { echo "NO patch.diff"; exit 9; }
 git apply -R --check $r/patch.diff 2>/dev/null && git apply -R $r/patch.diff   # make sure it is reverted
 git status --short | grep -v SEED_RESULT | grep -v '^??' | head -5
+cargo build --workspace --offline > /dev/shm/seedv-$n-build0.log 2>&1
 echo "== demo without patch"; (bash $r/demo/run.sh > /dev/shm/seedv-$n-clean.log 2>&1); c0=$?; echo "exit=$c0"
 echo "== apply"; git apply $r/patch.diff || { echo "PATCH DOES NOT APPLY"; exit 9; }
 git diff --stat | tail -3
-echo "== build + tests with patch"; cargo test --workspace --no-fail-fast --offline > /dev/shm/seedv-$n-tests.log 2>&1; ct=$?
+echo "== build + tests with patch"; cargo build --workspace --offline > /dev/shm/seedv-$n-build1.log 2>&1; cargo test --workspace --no-fail-fast --offline > /dev/shm/seedv-$n-tests.log 2>&1; ct=$?
 grep -E "^test result: FAILED|^error" /dev/shm/seedv-$n-tests.log | head -5; echo "tests exit=$ct"
 echo "== demo with patch"; (bash $r/demo/run.sh > /dev/shm/seedv-$n-patched.log 2>&1); c1=$?; echo "exit=$c1"
 git apply -R $r/patch.diff
